@@ -27,6 +27,26 @@ NOT_APPLICABLE = {p: 'check under construction in this session; not claimed unti
                   for p in ['C%02d' % i for i in range(1, 21)]}
 
 PROPS = {
+    'C06': dict(
+        claimed=True,
+        level='exploration',
+        level_text="Generated well-formed broker streams x fragmentation scripts x progress-making deadline expiries x read-buffer "
+                   "sizes (hook VerifSetReadBufSize) against the real read routine; the returns of ReadSlices (incl. BigMessage "
+                   "Topic/Size/ReadAll) are compared with the PUBLISH packets sent and the acknowledgement bytes with the owed "
+                   "ones, which also makes every fragmentation of one stream agree with every other (metamorphic relation via "
+                   "the model). Sampling of an input x cut space.",
+        technique='property-based testing (rapid): generated streams and fragmentation scripts, reference-model oracle (returns and acknowledgement bytes)',
+        rule="stream = 1-12 packets of {PUBLISH level 0/1/2 (topic 1..buffer-8 bytes, payload classes empty | 1-40 | remaining "
+             "length within +-2 of the read buffer | header fields ending exactly at the buffer end | 1-2 buffers beyond | 2-3 "
+             "buffers; fresh, high and reused identifiers; retain; DUP on level 1), PINGRESP, PUBREL for an open or unknown "
+             "identifier, retransmitted (DUP) exactly-once PUBLISH of an open cycle (suppressed), SUBACK/UNSUBACK nobody waits for}; read buffer from {64,100,128,256,1024,4096,131072}; fragmentation "
+             "from {whole, byte-wise, random pieces, at field and buffer boundaries}; 0-6 expiries which fire only after "
+             "progress; stream optionally coalesced with CONNACK; every third BigMessage skipped instead of read. "
+             "Non-trivial: the stream was cut into >= 2 reads, or a payload sat at the buffer boundary, or an expiry was armed.",
+        assumptions=ASSUME_SIM + ["the read buffer is shrunk through the verif hook in most cases; a share runs with the real 128 KiB"],
+        quick=dict(engines=[rapid('^TestC06', 24000)]),
+        thorough=dict(engines=[rapid('^TestC06', 100000, shards=14, timeout=1500)]),
+    ),
     'C16': dict(
         claimed=True,
         level='fault_enumeration',
